@@ -146,3 +146,142 @@ def wang_lemmas(run):
     run.axioms += ["cos(0) = 1, sin(0) = 0 for the uninterpreted c_cos / c_sin"]
     run.not_decided += ["that the phase sum over the images of an atom vanishes at non-zero commensurate q (finite geometric sum), i.e. the Wang correction is a no-op there",
                         "Gonze-Lee reciprocal-space sum (get_dd, dym_get_recip_dipole_dipole) beyond the Born-charge contraction", "symmetrize_borns_and_epsilon"]
+
+
+# ------------------------------------------------------------------ Gonze-Lee reciprocal-space sum (get_dd, get_dd_at_g)
+GDS = {"dd_part": lambda P: [P.num_patom, 3, P.num_patom, 3, 2], "G_list": lambda P: [P.num_G, 3], "q_cart": lambda P: [3],
+       "q_direction_cart": lambda P: [3], "dielectric": lambda P: [3, 3], "pos": lambda P: [P.num_patom, 3], "G": lambda P: [3], "KK": lambda P: [3, 3]}
+PI = D.PI
+g_ = z3.Int("g_")
+
+
+def _kk_spec(V, g, a, b):
+    """K = G_g + q.  |K| < tolerance: 0 without a direction, n_a n_b / (n.eps.n) with a direction n; otherwise
+    K_a K_b / (K.eps.K) exp(-K.eps.K / (4 lambda^2))"""
+    sq = z3.Function("c_sqrt", R, R)
+    ex = z3.Function("c_exp", R, R)
+    G, q, eps = V.a.G_list, V.a.q_cart, V.a.dielectric
+    K = [G[g, x] + q[x] for x in range(3)]
+    norm = K[0] * K[0] + K[1] * K[1] + K[2] * K[2]
+    small = sq(norm) < V.p.tolerance
+    keK = D.qeq(K, eps)
+    L2 = 4 * V.p["lambda"] * V.p["lambda"] if hasattr(V.p, "__getitem__") else 4 * getattr(V.p, "lambda") * getattr(V.p, "lambda")
+    far = K[a] * K[b] / keK * ex(-keK / L2)
+    if "q_direction_cart" in V.a:
+        n = [V.a.q_direction_cart[x] for x in range(3)]
+        near = z3.If(V.null.q_direction_cart, z3.RealVal(0), n[a] * n[b] / D.qeq(n, eps))
+    else:
+        near = z3.RealVal(0)
+    return z3.If(small, near, far)
+
+
+def get_dd_at_g_contract():
+    cos = z3.Function("c_cos", R, R)
+    sin = z3.Function("c_sin", R, R)
+
+    def req(V):
+        n = V.p.num_patom
+        return [n >= 1, V.p.i >= 0, V.p.i < n, V.p.j >= 0, V.p.j < n]
+
+    def phase(V):
+        i, j = V.p.i, V.p.j
+        return ((V.a.pos[i, 0] - V.a.pos[j, 0]) * V.a.G[0] + (V.a.pos[i, 1] - V.a.pos[j, 1]) * V.a.G[1] + (V.a.pos[i, 2] - V.a.pos[j, 2]) * V.a.G[2]) * 2 * PI
+
+    def ens(V):
+        i, j, n = V.p.i, V.p.j, V.p.num_patom
+        dd, old = V.a.dd_part, V.old.a.dd_part
+        ph = phase(V.old)
+        out = []
+        for k in range(3):
+            for l in range(3):
+                out.append(("re[%d,%d]" % (k, l), dd[i, k, j, l, 0] == old[i, k, j, l, 0] + V.old.a.KK[k, l] * cos(ph)))
+                out.append(("im[%d,%d]" % (k, l), dd[i, k, j, l, 1] == old[i, k, j, l, 1] + V.old.a.KK[k, l] * sin(ph)))
+        out.append(("frame", z3.ForAll([a_, x_, b_, y_, c_], z3.Implies(
+            z3.And(a_ >= 0, a_ < n, b_ >= 0, b_ < n, x_ >= 0, x_ < 3, y_ >= 0, y_ < 3, c_ >= 0, c_ < 2, z3.Or(a_ != i, b_ != j)),
+            dd[a_, x_, b_, y_, c_] == old[a_, x_, b_, y_, c_]))))
+        return out
+    return Contract(F, "get_dd_at_g", shapes=GDS, macros={"PI": PI}, requires=req, ensures=ens, modifies=("dd_part",), abstract_mul=True)
+
+
+def get_dd_contract():
+    """get_dd: (1) first loop (OpenMP): KK[g][a][b] == kk_spec(g, a, b) for every g, race free;
+    (2) dd_part[i,a,j,b] += sum_g kk_spec(g,a,b) * exp(2 pi i (pos_i - pos_j) . G_g)  (real and imaginary parts), frame."""
+    cos = z3.Function("c_cos", R, R)
+    sin = z3.Function("c_sin", R, R)
+
+    def req(V):
+        eps = V.a.dielectric
+        lam = getattr(V.p, "lambda")
+        G, q = V.a.G_list, V.a.q_cart
+        K = lambda g: [G[g, x] + q[x] for x in range(3)]      # noqa: E731
+        # the dielectric tensor is non-degenerate along every K that is used and along the direction (it is positive
+        # definite for a physical crystal; symmetrize_borns_and_epsilon is not verified)
+        return [V.p.num_G >= 0, V.p.num_patom >= 1, lam > 0, 4 * lam * lam != 0, V.p.tolerance > 0,
+                z3.ForAll([g_], z3.Implies(z3.And(g_ >= 0, g_ < V.p.num_G), D.qeq(K(g_), eps) != 0)),
+                z3.Implies(z3.Not(V.null.q_direction_cart), D.qeq([V.a.q_direction_cart[x] for x in range(3)], eps) != 0)]
+
+    def S(V, a, b, c):
+        Vo = V.old if V.old is not None else V
+        pos, G = Vo.a.pos, Vo.a.G_list
+
+        def term(i, j, g):
+            ph = ((pos[i, 0] - pos[j, 0]) * G[g, 0] + (pos[i, 1] - pos[j, 1]) * G[g, 1] + (pos[i, 2] - pos[j, 2]) * G[g, 2]) * 2 * PI
+            return _kk_spec(Vo, g, a, b) * (cos(ph) if c == 0 else sin(ph))
+        return RecSum("gl_dd_%d%d%d" % (a, b, c), [I, I], term)
+
+    def inv_g(V):
+        g = V.v.g
+        out = [("range", z3.And(g >= 0, g <= V.p.num_G))]
+        for a in range(3):
+            for b in range(3):
+                out.append(("KK[%d,%d]" % (a, b), z3.ForAll([g_], z3.Implies(z3.And(g_ >= 0, g_ < g), V.a.KK[g_, a, b] == _kk_spec(V, g_, a, b)))))
+        return out
+
+    def acc(V, g, extra):
+        n = V.p.num_patom
+        dd, old = V.a.dd_part, V.old.a.dd_part
+        out = []
+        for a in range(3):
+            for b in range(3):
+                for c in range(2):
+                    s = S(V, a, b, c)
+                    out.append(("dd[.,%d,.,%d,%d]" % (a, b, c), z3.ForAll([a_, b_], z3.Implies(
+                        z3.And(a_ >= 0, a_ < n, b_ >= 0, b_ < n),
+                        dd[a_, a, b_, b, c] == old[a_, a, b_, b, c] + s(a_, b_, g) + z3.If(extra(a_, b_), s.term(a_, b_, g), 0)))))
+        return out
+
+    def inv_g2(V):
+        g = V.v.g
+        return [("range", z3.And(g >= 0, g <= V.p.num_G))] + acc(V, g, lambda x, y: z3.BoolVal(False))
+
+    def inv_i2(V):
+        g, i = V.v.g, V.v.i
+        return [("range", z3.And(g >= 0, g < V.p.num_G, i >= 0, i <= V.p.num_patom))] + acc(V, g, lambda x, y: x < i)
+
+    def inv_j2(V):
+        g, i, j = V.v.g, V.v.i, V.v.j
+        n = V.p.num_patom
+        return [("range", z3.And(g >= 0, g < V.p.num_G, i >= 0, i < n, j >= 0, j <= n))] + acc(V, g, lambda x, y: z3.Or(x < i, z3.And(x == i, y < j)))
+
+    def unf(V):
+        g = V.v.g
+        x, y = z3.Ints("x!u y!u")
+        out = []
+        for a in range(3):
+            for b in range(3):
+                for c in range(2):
+                    s = S(V, a, b, c)
+                    out += [z3.ForAll([x, y], s.unfold(x, y, g), patterns=[s(x, y, g)]),
+                            z3.ForAll([x, y], s.unfold(x, y, g - 1), patterns=[s(x, y, g)]),
+                            z3.ForAll([x, y], s.zero(x, y), patterns=[s(x, y, 0)])]
+        return out
+
+    def ens(V):
+        return acc(V, V.p.num_G, lambda x, y: z3.BoolVal(False))
+    from contracts import replay_dynmat as RD
+    return Contract(F, "get_dd", replay_fn=RD.replay_get_dd, shapes={k: v for k, v in GDS.items() if k not in ("KK", "G")}, nullable=("q_direction_cart",),
+                    local_shapes={"KK": lambda V: [V.p.num_G, 3, 3]}, macros={"PI": PI},
+                    requires=req, ensures=ens, modifies=("dd_part",), race=True, auto_range=True, use_contracts={"get_dielectric_part", "get_dd_at_g"},
+                    loops={0: LoopSpec(inv_g), 8: LoopSpec(inv_g2, unfold=unf), 9: LoopSpec(inv_i2, unfold=unf), 10: LoopSpec(inv_j2, unfold=unf)},
+                    abstract_mul=True, split=True)
+
